@@ -187,7 +187,23 @@ func (it *Interp) eval(fr *Frame, v ssa.Value) Value {
 	if !ok {
 		panic(fmt.Sprintf("engine: no register for %s in %s", v.Name(), fr.fn))
 	}
+	if s, isStr := fr.regs[i].(*Str); isStr && s != nil && s.view != nil {
+		return it.viewString(s.view)
+	}
 	return fr.regs[i]
+}
+
+// viewString reads the current contents of the memory an unsafe.String value points at.
+func (it *Interp) viewString(sl *Slice) *Str {
+	cells := make([]*Term, sl.len)
+	for i := range cells {
+		if t, ok := sl.obj.get(sl.off + i).(*Term); ok && t != nil {
+			cells[i] = it.ts.Resize(t, 8, false)
+		} else {
+			cells[i] = it.ts.Const(8, 0)
+		}
+	}
+	return &Str{cells: cells, view: sl}
 }
 
 func (it *Interp) setReg(fr *Frame, v ssa.Value, val Value) {
